@@ -2,8 +2,8 @@
 
 TRUSTED_COMMON = [
     'Verus 0.2026.09.13 with its bundled Z3 4.16.0 and vstd (specifications of Vec, slices, iterators, HashMap, Option)',
-    'tools/vx extraction: the rewrite rules T1..T12 of DESIGN.md section 2.2 are meaning-preserving (monomorphization at VecKind as rustc does it; trait impls as inherent impls; operator sugar through dispatch traits; panics as obligations)',
-    'std semantics assumed by rewrites: enumerate() counts from 0 (T8); map().collect() visits elements once in order (T9); `a += &x` is `a += x` (T12); #[derive(Clone)] clones field-wise',
+    'tools/vx extraction: the rewrite rules T1..T13 of DESIGN.md section 2.2 / 8.2 are meaning-preserving (monomorphization at VecKind as rustc does it; trait impls as inherent impls; operator sugar through dispatch traits; panics as obligations)',
+    'std semantics assumed by rewrites: enumerate() counts from 0 (T8); map().collect() visits elements once in order (T9); into_iter().collect() likewise (T13); `a += &x` is `a += x` (T12); #[derive(Clone)] clones field-wise',
     'machine arithmetic: sizes and sums fit usize where a contract says so (explicit preconditions); allocation failure is out of scope',
 ]
 
@@ -23,7 +23,7 @@ def _p(level, explanation='', assumptions=None, rule='', dev_profile=False, kani
 PROPS = {
     'C01': _p('proof', explanation='compose proved to be the pushout (universal property)'),
     'C02': _p('proof', explanation='strict tensor proved to be juxtaposition; associativity and unit on the nose as lemmas over that contract'),
-    'C03': _p('exploration', explanation='left/right unit of composition and self-inverse symmetry proved as lemmas over the contracts of compose / identity / twist (module laws); the other laws bounded', extra_modules=['laws']),
+    'C03': _p('proof', explanation='every law (associativity, units, interchange, naturality / self-inverse / hexagons of the symmetry) proved up to an exhibited isomorphism as a lemma over the contracts of compose, tensor, identity, twist (modules laws, laws2)', extra_modules=['laws', 'laws2']),
     'C04': _p('proof', explanation='dagger/spider definitions proved; dagger involutive and distributing over tensor on the nose as lemmas over the contracts'),
     'C05': _p('proof', explanation='wf + type postconditions of the strict cone'),
     'C06': _p('proof', explanation='every finite-function / semifinite-function operation under a Verus contract stating its set-theoretic table; coequalizer against the universal property (is_coeq); coequalizer_universal iff constant on fibres'),
@@ -32,7 +32,7 @@ PROPS = {
     'C09': _p('exploration'),
     'C10': _p('exploration'),
     'C11': _p('exploration'),
-    'C12': _p('exploration'),
+    'C12': _p('proof', explanation='define_map_arrow / spider_map_arrow proved, for every functor meeting the trait contract, to return the substitution instance (nodes replaced by their blocks, hyperedges by the image of the operations, glued along the expanded source and target lists by a coequalizer, interfaces expanded), well-formed and of type F(A) -> F(B); the instance is unique up to isomorphism; the Identity functor is proved to meet the contract and its image to be isomorphic to the argument; functoriality clauses and the lax DynFunctor wrapper are bounded', extra_modules=['subst', 'laws', 'laws2']),
     'C13': _p('exploration'),
     'C14': _p('exploration'),
     'C15': _p('proof', explanation='kahn proved against its layering contract (loop invariant over a counting model); converse / flatmap / operation_adjacency proved to compute the dependency relation; layer() proved to satisfy the local form of the property, from which the path form follows by verified lemmas; grouping (layered_operations) bounded'),
@@ -40,7 +40,7 @@ PROPS = {
     'C17': _p('proof', explanation='is_monogamous and degrees proved; is_acyclic proved: true iff no node reaches itself (kahn + node adjacency under contract, cycle lemmas)', dev_profile=True),
     'C18': _p('proof', explanation='validate iff + error variants, is_monomorphism and is_convex_subgraph (two-layer search: loop invariant, soundness and completeness against step-indexed reachability, termination) proved'),
     'C19': _p('exploration'),
-    'C20': _p('exploration', extra_modules=['laws']),
+    'C20': _p('exploration', extra_modules=['laws', 'laws2', 'subst']),
 }
 
 
